@@ -28,7 +28,7 @@ _th = {}
 def required(tier):
     return ['equal-activity', 'scale', 'top-chemical', 'history', 'history:use_cache', 'history:no-cache', 'history:T-decrease', 'sle:solute-only', 'sle:solubility', 'sle:pure', 'sle:gamma=ideal', 'sle:solid-in-feed', 'sle:history', 'sle:history:pure-then-solvent', 'method:shgo', 'method:pseudo equilibrium',
             # coverage audit
-            'method:differential evolution', 'history:cache-hit', 'history:last-call-same', 'history:last-call-within', 'history:last-call-outside', 'history:last-call-scaled', 'history:last-call-same-T-other-z', 'history:re-pooled', 'history:chemical-set-changed',
+            'method:differential evolution', 'history:cache-hit', 'history:last-call-same', 'history:last-call-within', 'history:last-call-outside', 'history:last-call-scaled', 'history:last-call-same-T-other-z', 'history:query(update=False)', 'history:re-pooled', 'history:chemical-set-changed',
             'history-reset', 'history:top-changed', 'history:method-switched', 'composition:wide', 'composition:water-free', 'composition:zero-flow-member', 'feed:pre-split', 'pre-split', 'form:P', 'form:single_loop',
             'form:update=False', 'call-form', 'sle2', 'sle:spec=H', 'sle:P-given', 'sle:activity_coefficient', 'sle:solute-not-first', 'sle:second-solute-solid', 'sle:pure-in-package', 'sle:pure:next-to-Tm']
 
@@ -114,6 +114,11 @@ def more_lle(rng, c):
             if rng.random() < 0.6: c['method'] = rng.choice(['shgo', 'shgo', 'differential evolution'])     # the default method is masked by its recorded finding
             c['use_cache'] = True
         c['hist'] = c['hist'][:3] + [h]
+        if kind in ('same', 'within') and rng.random() < 0.4:
+            # ... followed by a pure query (update=False) at another temperature or composition: the judged call must still not see the query's coefficients
+            c['hist'].append({'kind': 'then-query', 'query': True, 'dT': rng.choice([-1, 1]) * round(rng.uniform(10, 45), 2), 'mult': ([round(rng.uniform(0.3, 3), 3) for _ in ids] if rng.random() < 0.4 else None)})
+            c['use_cache'] = True
+            if rng.random() < 0.5: c['method'] = rng.choice(['shgo', 'shgo', 'differential evolution'])
         c['use_cache'] = rng.random() < 0.75
         c['repool'] = [rng.choice([0.0, 1.0, round(rng.random(), 3)]) for _ in ids] if rng.random() < 0.5 else None     # the judged feed distributed differently over l / L
     elif r < 0.7 and c['hist']:
@@ -248,7 +253,10 @@ def run_lle(case, rec):
                 s.imol['L'] = 0
                 for i, v in zip(ids, f2): s.imol['l', i] = v
                 if 'method' in h: lle.method = h['method']; rec.hit('history:method-switched')
-                lle(T + h['dT'], top_chemical=(h['top'] if 'top' in h else top))
+                if h.get('query'):
+                    lle(T + h['dT'], top_chemical=(h['top'] if 'top' in h else top), update=False); rec.hit('history:query(update=False)')      # asks for K and the phase fraction only
+                else:
+                    lle(T + h['dT'], top_chemical=(h['top'] if 'top' in h else top))
                 lle.method = method
                 Tprev = T + h['dT']
                 if 'top' in h and h['top'] != top: rec.hit('history:top-changed')
@@ -270,6 +278,8 @@ def run_lle(case, rec):
                 same_set = [c_.ID for c_ in lle._lle_chemicals] == [i for i, v in zip(ids, flows) if v]
                 if case['use_cache'] and same_set and abs(T - lle._T) < lle.temperature_cache_tolerance and (np.abs(lle._z_mol - zj) < lle.composition_cache_tolerance).all():
                     hsfx = '/cache-hit'; rec.hit('history:cache-hit')
+                    # a pure query (update=False) in between must not have replaced what the solver remembers for this point: its own key, outside the recorded cache-hit finding
+                    if any(h_.get('query') for h_ in case['hist']): hsfx = '/hit-after-query'
                 else:
                     set_changed = not same_set
                     if set_changed: rec.hit('history:chemical-set-changed')
@@ -292,6 +302,23 @@ def run_lle(case, rec):
         rec.check(ok, 'history-reset' if set_changed else 'history', f'{mtag}/{ctag}' + ('/T-decrease' if decreased else '') + hsfx + tsfx,
                   f'lle({method}, use_cache={case["use_cache"]}) at T={T} after {len(case["hist"])} earlier calls (last at T={Tprev}) differs from a fresh solver by {dev:.3g} of the feed: l {rh["l"].tolist()} vs fresh {l.tolist()}',
                   residual=dev)
+
+
+_APPLIED = {}
+
+
+def install_probe():
+    """observe the event the property speaks about: the solubility the solver computed and APPLIED (the argument of the last SLE._update_solubility of a call).
+    Solving again afterwards is no reference: the iteration x -> solubility(gamma(x)) can have several fixed points (glucose in a little water: 1.2e-3 and 0.276)
+    and is not idempotent from another starting state."""
+    from thermosteam.equilibrium.sle import SLE
+    if getattr(SLE, '_vt_probe', False): return
+    orig = SLE._update_solubility
+    def _update_solubility(self, x):
+        _APPLIED['x'] = float(x); _APPLIED['n'] = _APPLIED.get('n', 0) + 1
+        return orig(self, x)
+    SLE._update_solubility = _update_solubility
+    SLE._vt_probe = True
 
 
 def run_sle(case, rec):
@@ -321,7 +348,9 @@ def run_sle(case, rec):
             if not any(h['mult']) and len(ids) > 1: rec.hit('sle:history:pure-then-solvent')
         if case['prior']: s.sle(solute, T=min(T + 15, 450))       # an earlier call on the same solver
         if case.get('shist') or case['prior']: start(s)
+        install_probe(); _APPLIED.clear()
         s.sle(solute, T=T, **kw)
+        applied = dict(_APPLIED)
     except Exception as e:
         if numeric_failure(e): rec.refuse(f'sle refused: {type(e).__name__}'); return
         rec.exception('sle', e, what=f'sle on {ids} (solubility={case["solubility"]}) raised {type(e).__name__}: {str(e)[:140]}'); return
@@ -352,13 +381,13 @@ def run_sle(case, rec):
     if kw:
         sol = case['solubility']
     else:
-        try: sol = s.sle._solve_x(T)       # the solubility the solver computes at the final state
-        except Exception: sol = None
+        sol = applied.get('x')       # the solubility the solver computed and applied last in the judged call (probe on SLE._update_solubility)
     if sol is not None:
-        rec.check(xl <= max(sol, 0.0) + 1e-9 or after['s'][j] == 0 and xl <= present / (present + sum(case['flows'][1:])) + 1e-12, 'sle:solubility',
+        slack_ = 1e-9
+        rec.check(xl <= max(sol, 0.0) + slack_ or after['s'][j] == 0 and xl <= present / (present + sum(case['flows'][1:])) + 1e-12, 'sle:solubility',
                   'given' if kw else 'computed', f'liquid mole fraction of {solute} {xl!r} exceeds the solubility {sol!r} although solid remains ({after["s"][j]})', residual=max(0.0, xl - sol))
         if after['s'][j] > 0 and sol > 0:
-            rec.check(abs(xl - sol) <= 1e-6, 'sle:solubility', 'saturated', f'solid {solute} remains but the liquid mole fraction {xl!r} is not the solubility {sol!r}', residual=abs(xl - sol))
+            rec.check(abs(xl - sol) <= 1e-9, 'sle:solubility', 'saturated', f'solid {solute} remains but the liquid mole fraction {xl!r} is not the solubility {sol!r} the solver applied', residual=abs(xl - sol))
     if 0 < after['l'][j] < present: rec.mark_nontrivial(case_hash(case))
     elif after['l'][j] in (0, present): rec.mark_nontrivial(case_hash((case['ids'], 'edge', round(T))))
 
@@ -476,11 +505,15 @@ def run_sle2(case, rec):
             target = Hlo + case['hfrac'] * (Hhi - Hlo)
             sle = s.sle
             if act: sle.activity_coefficient = act
+            install_probe(); _APPLIED.clear()
             sle(solute, H=target, **kw)
+            applied = dict(_APPLIED)
         else:
             sle = s.sle
             if act: sle.activity_coefficient = act
+            install_probe(); _APPLIED.clear()
             sle(solute, T=T, **kw)
+            applied = dict(_APPLIED)
     except Exception as e:
         if numeric_failure(e): rec.refuse(f'sle refused: {type(e).__name__}'); return
         rec.exception('sle', e, what=f'sle({solute}, {case["spec"]}=..., {kw}) on {ids} raised {type(e).__name__}: {str(e)[:140]}'); return
@@ -519,15 +552,9 @@ def run_sle2(case, rec):
     if given: sol = case['solubility']
     else:
         try:
-            sol = s.sle._solve_x(Tend)
-            # _solve_x iterates with _update_solubility: it may move the solute once more - restore what the call returned
-            s.imol['s', solute] = after['s'][j]; s.imol['l', solute] = after['l'][j]
-            if case['spec'] == 'H':
-                # the temperature iteration stops within 1e-3 K: the solubility applied last belongs to a temperature that close to the final one
-                s2 = s.sle._solve_x(Tend + 2e-3); s.imol['s', solute] = after['s'][j]; s.imol['l', solute] = after['l'][j]
-                slack += abs(s2 - sol)
+            sol = applied.get('x')       # the solubility the solver computed and applied last in the judged call (probe on SLE._update_solubility)
         except Exception: sol = None
-    if act and not given and sol is not None:
+    if act and not given and sol is not None and case['spec'] == 'T':      # (with an H specification the last applied value belongs to the last temperature iterate)
         # user activity coefficient with the ideal package: the eutectic solubility with that coefficient
         from chemicals import solubility_eutectic
         exp = solubility_eutectic(Tend, Tm, chem.Hfus, chem.Cn.l(Tend), chem.Cn.s(Tend), act)
